@@ -8,7 +8,10 @@ PART = {}
 FUNCTIONS = ["miros.activeobject.ActiveObject.subscribe/_subscribe", "miros.activeobject.ActiveObject.publish/_publish",
              "miros.activeobject.ActiveObject.start_at/__start", "miros.activeobject.ActiveFabricSource.subscribe/publish/start",
              "miros.activeobject.ActiveFabricSource.thread_runner_fifo/thread_runner_lifo", "miros.activeobject.LockingDeque.append/appendleft"]
-ASSUMPTIONS = ["threads are recorded stand-ins; the real delivery bodies are pumped after the publication (phase interleaving)",
+ASSUMPTIONS = [
+  "E2 part: a caller runs the real ActiveObject.subscribe (run-time path: __thread_running, subscribed, _subscribe -> fabric.subscribe), post_fifo and "
+  "publish on a started object; the delivery thread of the subscription's kind runs the real thread_runner (for lifo: LockingDeque.appendleft on the object's "
+  "queue), the object's own thread runs run_event -> next_rtc with a dispatch stub; all translated from /repo's source on this run; ghost reference deque as in C04","threads are recorded stand-ins; the real delivery bodies are pumped after the publication (phase interleaving)",
                "the subscriber is a started ActiveObject with decorated states and np pending events (distinct tokens) in its queue",
                "capacity large enough that nothing overflows (overflow is C16)"]
 OUTSIDE = ["plain deques subscribed directly with the fabric (the suite pins back-placement for them)", "interleavings inside a delivery iteration"]
@@ -98,3 +101,50 @@ def set_tier(tier):
 
 def jobs(tier):
   return jobs_all(globals(), tier)
+
+def e2_scenarios(tier):
+  lifo = dict(kind="lifo", pending=1)
+  fifo = dict(kind="fifo", pending=1)
+  if tier == "quick":
+    return [(lifo, 30)]
+  return [(lifo, 40), (fifo, 40), (dict(kind="lifo", pending=2), 36)]
+
+
+DIFF_KW = dict(kind="lifo", pending=1)
+
+
+# ---- E2 part: the object's run-time subscribe, posts and publish against the delivery thread and its own thread, every interleaving -------
+def e2_specs(tier):
+  out = []
+  to = 900 if tier == "quick" else 3000
+  for (kw, K) in e2_scenarios(tier):
+    out.append(dict(scenario="ao_pubsub", kwargs=kw, kind="reach", K=K + 10, pred="all_dispatched", timeout=to))
+    out.append(dict(scenario="ao_pubsub", kwargs=kw, kind="safety", K=K, pred="c04_bad", timeout=to, replay="ao_pubsub_replay"))
+    out.append(dict(scenario="ao_pubsub", kwargs=kw, kind="deadlock", K=K, pred="quiescent_wrong", timeout=to, replay="ao_pubsub_replay"))
+  return out
+
+
+def e2_signature(spec, r):
+  real = r["replay"]["real"]
+  kw = spec["kwargs"]
+  if real["errors"]:
+    return ("pubsub-raised", "%s; schedule: %s" % (real["errors"], r["trace"]), True)
+  log = real["dispatch_log"]
+  if spec["kind"] == "deadlock":
+    want = 1 + kw["pending"]
+    return ("publication-not-dispatched-once:interleaving", "everybody idle: the object dispatched %s (a %s subscription made at run time, %d pending event(s)), queue %s, tokens %d; schedule: %s" % (
+      log, kw["kind"], kw["pending"], real["deque"], real["tokens"], r["trace"]), log.count("NEWS") != 1 or len(log) != want)
+  if len(set(log)) < len(log):
+    return ("publication-dispatched-twice:interleaving", "dispatch log %s; schedule: %s" % (log, r["trace"]), True)
+  return ("%s-subscription-wrong-end-of-queue:interleaving" % kw["kind"], "the object dispatched %s; a %s subscription puts the publication at the %s of its queue; schedule: %s" % (
+    log, kw["kind"], "front" if kw["kind"] == "lifo" else "back", r["trace"]), True)
+
+
+def solver_part(tier, known):
+  from vf.e2 import propbase, harness
+  FUNCTIONS.extend(x for x in propbase.functions_of("ao_pubsub", e2_scenarios(tier)[0][0]) if x not in FUNCTIONS)
+  n = 5 if tier == "quick" else 20
+  out = propbase.run(e2_specs(tier), known, e2_signature, jobs=8,
+                     differential=lambda: harness.ao_pubsub_differential(DIFF_KW, n, seed=43))
+  out["coverage"]["e2_bounds"] = [{"kwargs": k, "K": K} for k, K in e2_scenarios(tier)]
+  return out
